@@ -205,6 +205,9 @@ def discharge(vc: VC, base: list[Any], timeout_s: float, use_cvc5: bool = True, 
     goal = hyps + [neg]
     if axioms is not None:
         goal = goal + list(axioms(goal))
+    from . import symstr as _symstr
+
+    goal = goal + _symstr.unicode_definitions(goal)  # exact isdigit / isdecimal tables for the characters mentioned
     vc.status = "unknown"
     last = None
     for kind, frac in PORTFOLIO:
